@@ -120,6 +120,52 @@ def mutate_spec(rng, sp):
     return None, None, None
 
 
+def _sig(kind, frag):
+    """Structure signature of a document fragment: what a JSON reload still knows about the shape of an
+    aggregator.  None = unknown (an empty sparse container only records the type name of its bins)."""
+    if kind == "Count" or not isinstance(frag, dict):
+        return ("Count",)
+    if kind in S.LEAF_Q:
+        return (kind,)
+    if kind == "Bag":
+        return ("Bag", frag["range"])
+    if kind == "Bin":
+        return ("Bin", frag["low"], frag["high"], len(frag["values"]), _sig(frag["values:type"], frag["values"][0]), tuple(_sig(frag[f + ":type"], frag[f]) for f in ("underflow", "overflow", "nanflow")))
+    if kind == "SparselyBin":
+        inner = _sig(frag["bins:type"], next(iter(frag["bins"].values()))) if frag["bins"] else None
+        return ("SparselyBin", frag["binWidth"], frag["origin"], frag["bins:type"], inner, _sig(frag["nanflow:type"], frag["nanflow"]))
+    if kind == "Categorize":
+        inner = _sig(frag["bins:type"], next(iter(frag["bins"].values()))) if frag["bins"] else None
+        return ("Categorize", frag["bins:type"], inner)
+    if kind in ("CentrallyBin", "IrregularlyBin", "Stack"):
+        key = "center" if kind == "CentrallyBin" else "atleast"
+        return (kind, tuple(b[key] for b in frag["bins"]), _sig(frag["bins:type"], frag["bins"][0]["data"]), _sig(frag["nanflow:type"], frag["nanflow"]))
+    if kind == "Fraction":
+        return ("Fraction", _sig(frag["sub:type"], frag["numerator"]))
+    if kind == "Select":
+        return ("Select", _sig(frag["sub:type"], frag["data"]))
+    if kind == "Label":
+        return ("Label", tuple(sorted((k, _sig(frag["sub:type"], v)) for k, v in frag["data"].items())))
+    if kind == "UntypedLabel":
+        return ("UntypedLabel", tuple(sorted((k, _sig(v["type"], v["data"])) for k, v in frag["data"].items())))
+    if kind == "Index":
+        return ("Index", tuple(_sig(frag["sub:type"], v) for v in frag["data"]))
+    if kind == "Branch":
+        return ("Branch", tuple(_sig(v["type"], v["data"]) for v in frag["data"]))
+    return (kind,)
+
+
+def _sig_differs(a, b):
+    """Do two signatures differ somewhere both of them know about?"""
+    if a is None or b is None:
+        return False
+    if isinstance(a, tuple) and isinstance(b, tuple):
+        if len(a) != len(b):
+            return True
+        return any(_sig_differs(x, y) for x, y in zip(a, b))
+    return a != b
+
+
 def run_case(i, rng, tier):
     label, sp = C.pick_spec(i, rng, tier)
     sp2, desc, path = mutate_spec(rng, sp)
@@ -139,12 +185,27 @@ def run_case(i, rng, tier):
     sa = S.gen_stream(rng, sp, rng.choice([0, 0, 3, 8]))
     sb = S.gen_stream(rng, sp2, rng.choice([0, 0, 3, 8]))
     wit = {"tree": S.describe(sp), "other": S.describe(sp2), "spec": sp, "spec2": sp2, "mutation": desc, "path": list(path), "stream_a": C.stream_json(sa), "stream_b": C.stream_json(sb)}
+    # operand states: live, or reloaded from JSON (a reachable state: no value templates, no quantities)
+    reload_a, reload_b = rng.random() < 0.3, rng.random() < 0.3
+    wit["reloaded"] = [reload_a, reload_b]
+    counters["reloaded_operands"] = int(reload_a) + int(reload_b)
     for op, order in (("+", "ab"), ("+", "ba"), ("+=", "ab"), ("+=", "ba")):
         try:
             a = C.fill_all(S.build(sp), sa)
             b = C.fill_all(S.build(sp2), sb)
+            if reload_a:
+                a = a.toImmutable()
+            if reload_b:
+                b = b.toImmutable()
         except Exception:  # noqa: BLE001
             return {"digest": C.digest(sp, desc), "nontrivial": False, "failures": [], "counters": {"mutant_not_fillable": 1}, "sets": sets}
+        if reload_a or reload_b:
+            # after a reload an empty sparse container only knows the type name of its bins: demand rejection
+            # only where the difference is still present in the state of the operands
+            da, db = O.observe(a), O.observe(b)
+            if not (da["type"] != db["type"] or _sig_differs(_sig(da["type"], da["data"]), _sig(db["type"], db["data"]))):
+                counters["difference_not_in_reloaded_state"] = counters.get("difference_not_in_reloaded_state", 0) + 1
+                continue
         x, y = (a, b) if order == "ab" else (b, a)
         tx, ty = O.text(x), O.text(y)
         raised = None
@@ -179,6 +240,10 @@ def run_case(i, rng, tier):
                 # both operands untouched (neutraliser).
                 a2 = C.fill_all(S.build(sp), sa)
                 b2 = C.fill_all(S.build(sp2), sb)
+                if reload_a:
+                    a2 = a2.toImmutable()
+                if reload_b:
+                    b2 = b2.toImmutable()
                 x2, y2 = (a2, b2) if order == "ab" else (b2, a2)
                 t2x, t2y = O.text(x2), O.text(y2)
                 try:
@@ -191,8 +256,8 @@ def run_case(i, rng, tier):
             d = O.diff(O.canon(__import__("json").loads(tx)), O.canon(__import__("json").loads(ax)), 0.0, exact=True)
             failures.append(C.fail(key, "rejected %s (%s at depth %d, %s) left its left operand changed: %s" % (op, desc, depth, order, C.fmt_diff(d)), op=op, order=order, **wit))
     return {
-        "digest": C.digest(sp, desc, list(path), wit["stream_a"], wit["stream_b"]),
-        "nontrivial": counters.get("merges_attempted", 0) == 4,
+        "digest": C.digest(sp, desc, list(path), wit["stream_a"], wit["stream_b"], wit["reloaded"]),
+        "nontrivial": counters.get("merges_attempted", 0) >= 1,
         "failures": failures[:4],
         "counters": counters,
         "sets": sets,
